@@ -196,7 +196,7 @@ package storage
 //@   ensures[toolarge; C08 C14] len(value) > maxValue ==> result == ErrRowTooLarge
 //@   ensures[ok.iff] (result == nil) <==> (len(value) <= maxValue && exists p int :: 0 <= p && p < cnt(n) && key(n,p) == key)
 //@   ensures[err.frame; C14] result != nil ==> forall c *leafCell :: c.valueBytes == old(c.valueBytes) && c.valueSize == old(c.valueSize)
-//@   ensures[ok.cell; C01 C08] result == nil ==> forall i int :: 0 <= i && i < cnt(n) && key(n,i) == key ==>
+//@   ensures[ok.cell; C01 C08 C12 C16] result == nil ==> forall i int :: 0 <= i && i < cnt(n) && key(n,i) == key ==>
 //@              lc(n,i).valueBytes == value && lc(n,i).valueSize == len(value)
 //@   ensures[ok.frame; C01] result == nil ==> forall c *leafCell ::
 //@              (forall i int :: 0 <= i && i < cnt(n) && key(n,i) == key ==> lc(n,i) != c) ==>
